@@ -26,6 +26,8 @@ type C18Case struct {
 	// result of an earlier identical run: a user runs go generate again) or
 	// "stale" (an older result), "empty" (a placeholder, or what an interrupted
 	// write left) or "foreign" (a file of the package that no generator wrote).
+	// "failed-run-before": nothing is there, but an earlier run for the same output
+	// failed (the setup file had a syntax error, since repaired).
 	// The CLI contract is the same in all of them.
 	Prior string `json:"prior,omitempty"`
 	// LogDiff: the "-log changes neither code nor exit status" clause taken
@@ -38,7 +40,7 @@ type C18Case struct {
 	LinkOut bool `json:"link_out,omitempty"`
 }
 
-var c18Priors = []string{"none", "same", "stale", "empty", "foreign"}
+var c18Priors = []string{"none", "same", "stale", "empty", "foreign", "failed-run-before"}
 
 var c18Forms = []string{"rel-pkgdir", "rel-modroot", "abs", "gofile", "gofile-overridden", "symlink-modroot", "gofile-with-dir"}
 var c18Outs = []string{"none", "same-dir", "subdir", "dotdot-outside"}
@@ -192,11 +194,20 @@ func execC18(env *sim.Env, c C18Case) CaseResult {
 	iv := c.Inv
 	run := Step{Op: "run", Inv: &iv, Bin: c.Bin, Plan: c.Plan}
 	var steps []Step
+	nHist := 0 // steps of a prior history that leave nothing at the output path
 	switch c.Prior {
 	case "same":
 		steps = append(steps, Step{Op: "write", Path: iv.OutPath, Data: c.Canon})
 	case "stale":
 		steps = append(steps, Step{Op: "write", Path: iv.OutPath, Data: []byte("// Code generated by github.com/reedom/convergen\n// DO NOT EDIT.\n\npackage " + pkgNameOf(c.World.Files[c.World.Setup]) + "\n\n// result of an older setup file\nfunc OlderResult() {}\n")})
+	case "failed-run-before":
+		setup := "{W}/" + c.World.Setup
+		first := Invocation{Cwd: iv.Cwd, Input: iv.Input, GoFile: iv.GoFile, OutArg: iv.OutArg, OutPath: iv.OutPath}
+		steps = append(steps,
+			Step{Op: "edit", Path: setup, Data: []byte(c.World.Files[c.World.Setup] + "\nfunc halfWritten( {\n")},
+			Step{Op: "run", Inv: &first, Bin: "plain"},
+			Step{Op: "edit", Path: setup, Data: []byte(c.World.Files[c.World.Setup])})
+		nHist = 3
 	case "empty":
 		steps = append(steps, Step{Op: "write", Path: iv.OutPath, Data: []byte{}})
 	case "foreign":
@@ -214,7 +225,7 @@ func execC18(env *sim.Env, c C18Case) CaseResult {
 	rs := rsAll[len(rsAll)-1:]
 	r := &rs[0]
 	prior, priorExists := []byte(nil), false
-	if len(steps) > 2+nPre {
+	if nHist == 0 && len(steps) > 2+nPre {
 		prior, priorExists = steps[1+nPre].Data, true
 	}
 	otherDir := c.OutKind == "subdir" || c.OutKind == "dotdot-outside"
